@@ -47,7 +47,7 @@ def compare_step(rep, rule, idx, b, tracing=0, keyprefix='', fields=None, where_
     where = 'hexsim.hpp hexsim::Processor::run (%s %d)' % (spec_isa.MNEMONIC_OF.get(opc, 'opcode 0x%X' % opc), opr)
     n = 0
     for l in exp:
-        if l.undefined:
+        if l.undefined or l.cond == F:
             continue
         key = '%sbyte=0x%02X:%s' % (keyprefix, b, l.what)
         match = [g for g in got if g[0] == l.cond]
